@@ -22,7 +22,7 @@ from ufl.core.expr import Expr
 from ufl.corealg.map_dag import map_expr_dag
 
 from ufv import num as N
-from ufv.core import bounded_ok, proved, undecided, violated
+from ufv.core import bounded_ok, crash_text, deliberate, proved, undecided, violated
 from ufv.den import World, components, den, envs
 from ufv.nodes import templates
 from ufv.num import Unsupported
@@ -155,6 +155,8 @@ def build(run):
             try:
                 r = map_expr_dag(rules, o, vcache={op: op for op in ops})
             except ValueError as ex:
+                if not deliberate(ex):
+                    return violated(f"crash instead of a result or a refusal: {crash_text(ex)}", reproduced=True, backend="exec")
                 if isinstance(o, C.Imag) or t.cls is C.Imag:
                     return proved("rejected", sample=f"{tag}: {ex}")
                 return proved("rejected-conservatively", sample=f"{tag}: {ex}")
